@@ -12,7 +12,7 @@ if [ ! -d "$WT" ]; then
   [ -d /tmp/wt/base/target ] && cp -a /tmp/wt/base/target "$WT/target"
 fi
 cd "$WT" || exit 2
-git checkout -q --detach "$(git -C /repo rev-parse HEAD)" 2>/dev/null
+git checkout -q --detach "${SEED_BASE:-$(git -C /repo rev-parse HEAD)}" 2>/dev/null
 git checkout -- . ; git clean -fdq -e target
 DEMO_PATH=$(sed -n 1p "$D/demo.txt"); DEMO_CMD=$(sed -n 2p "$D/demo.txt")
 DEMO_FILE=$(ls "$D"/*.rs 2>/dev/null | head -1)
@@ -43,7 +43,7 @@ if [ "$SUITE" != "--no-suite" ]; then
     "ioc ") SCOPE="-p fibre_ioc" ;;
   esac
   echo "   scope: $SCOPE (touched: $TOUCHED)"
-  timeout 3000 cargo nextest run $SCOPE --no-fail-fast --test-threads 8 --retries 2 --offline > "$D/suite_patched.log" 2>&1
+  timeout 7200 cargo nextest run $SCOPE --no-fail-fast --test-threads 8 --retries 3 --offline > "$D/suite_patched.log" 2>&1
   grep -E "^\s+Summary|^\s+(FAIL|TIMEOUT|SIGABRT|SIGSEGV)" "$D/suite_patched.log" | sort | uniq -c | sort -rn | head -20
 fi
 echo "RESULT clean_demo=$RC1 patched_demo=$RC2"
